@@ -169,6 +169,10 @@ impl Iterator for ForceProgressIterator<'_> {
     fn next(&mut self) -> Option<Self::Item> {
         #[cfg(regexml_verif)]
         crate::verif::tick();
+        #[cfg(regexml_verif)]
+        if crate::verif::ablated(crate::verif::ABLATE_PROGRESS_GUARD) {
+            return self.base.next();
+        }
         if self.count_zero_length > 3 {
             return None;
         }
